@@ -511,13 +511,418 @@ Proof.
   apply (fails_on_sound native_call env rk rank_ok_all 8 g K Hf). exact Hk.
 Qed.
 
+Definition digits10 : list byte := [48; 49; 50; 51; 52; 53; 54; 55; 56; 57].
+Lemma rej_on_digit g : forallb (fun c => fails_on env 8 g [c]) digits10 = true ->
+  forall c i d, nom_is_digit c = true -> REJ g d (c :: i).
+Proof.
+  intros H c i d Hc. rewrite forallb_forall in H. apply (fails_on_byte native_call env rk rank_ok_all 8). apply H.
+  unfold nom_is_digit in Hc. apply andb_true_iff in Hc. destruct Hc as [A B]. apply N.leb_le in A, B.
+  assert (Hc : c = 48 \/ c = 49 \/ c = 50 \/ c = 51 \/ c = 52 \/ c = 53 \/ c = 54 \/ c = 55 \/ c = 56 \/ c = 57) by lia.
+  unfold digits10. cbn [In]. intuition.
+Qed.
+
+Lemma rej_number_nondigit c i d : nom_is_digit c = false -> REJ (Ref f_core_x_number DSame) d (c :: i).
+Proof.
+  intro H. apply (rejref _ _ _ _ _ env_number). intros b f Hf Hb. destruct f as [|f]; [cbn [need] in Hf; lia|].
+  rewrite run_S. cbn [step leaf_run]. unfold number_p. cbn [span]. rewrite H. reflexivity.
+Qed.
+
+
+Lemma enc_number_head bits n w : enc_number bits n w -> exists c r, w = c :: r /\ nom_is_digit c = true.
+Proof.
+  intros [ds Hne Hd _]. destruct ds as [|c r]; [contradiction|]. exists c, r. split; [reflexivity|].
+  cbn [forallb] in Hd. apply andb_true_iff in Hd. exact (proj1 Hd).
+Qed.
+
+(* ---------------------------------------------------------------- BODY[section]<origin> *)
+Lemma env_att_body_section : env f_body_x_msg_att_body_section = Some def_body_x_msg_att_body_section. Proof. reflexivity. Qed.
+Lemma env_section : env f_body_x_section = Some def_body_x_section. Proof. reflexivity. Qed.
+Lemma env_section_spec : env f_body_x_section_spec = Some def_body_x_section_spec. Proof. reflexivity. Qed.
+Lemma env_section_text : env f_body_x_section_text = Some def_body_x_section_text. Proof. reflexivity. Qed.
+Lemma env_section_msgtext : env f_body_x_section_msgtext = Some def_body_x_section_msgtext. Proof. reflexivity. Qed.
+Definition part_item : G := Map proj1of2 (Seq [Leaf (LTag [46]); Ref f_core_x_number DSame]).
+Definition def_section_part : G :=
+  Map (mk_action (PTuple [PVar "part"; PVar "rest"]) (ACall "section_part_cons" [AVar "part"; AVar "rest"]))
+      (Seq [Ref f_core_x_number DSame; Many0 part_item]).
+Lemma env_section_part : env f_body_x_section_part = Some def_section_part. Proof. reflexivity. Qed.
+
+Definition closes93 (rest : list byte) : Prop := match rest with c :: _ => c = 93 | [] => False end.
+
+Lemma same_nocase_app a b k c : same_nocase a k = true -> same_nocase b c = true -> same_nocase (a ++ b) (k ++ c) = true.
+Proof.
+  revert k; induction a as [|x a IH]; intros [|y k] H1 H2; try discriminate; [exact H2|].
+  cbn [same_nocase app] in *. apply andb_true_iff in H1. destruct H1 as [A B]. rewrite A. exact (IH k B H2).
+Qed.
+
+(* an alternative turned away by a keyword plus the byte that follows it *)
+Lemma rej_kw_then g K k c rest d : same_nocase K k = true -> fails_on env 8 g (K ++ [c]) = true -> REJ g d (k ++ c :: rest).
+Proof.
+  intros Hk Hf. change (k ++ c :: rest) with (k ++ [c] ++ rest). rewrite app_assoc.
+  apply (fails_on_sound native_call env rk rank_ok_all 8 g (K ++ [c]) Hf). apply same_nocase_app; [exact Hk|].
+  cbn [same_nocase]. unfold eq_nocase1. rewrite N.eqb_refl. reflexivity.
+Qed.
+
+Lemma rej_kw g K k rest d : same_nocase K k = true -> fails_on env 8 g K = true -> REJ g d (k ++ rest).
+Proof. intros Hk Hf. exact (fails_on_sound native_call env rk rank_ok_all 8 g K Hf d k rest Hk). Qed.
+
+Definition hdr_sep_follow (rest : list byte) : Prop := match rest with c :: _ => c = 32 \/ c = 41 | [] => False end.
+
+Lemma oksep_header_names ws d : enc_header_names ws ->
+  exists vs, OkSep native_call env rk (Leaf (LTag (bs " "))) (Ref f_core_x_astring DSame) d (SPb ++ ws) vs closes.
+Proof.
+  intro H. induction H as [s w Hs | s w ws Hs Hl [vs IH]].
+  - exists [VBytes s]. rewrite <- (app_nil_r w). unfold SPb.
+    eapply (oksep_cons _ _ _ _ _ _ _ _ _ _ _ _ any (stops_at cls_core_x_is_astring_char)).
+    + apply ok_tag.
+    + discriminate.
+    + apply ok_astring, Hs.
+    + apply oksep_nil. intros rest Hr. destruct rest as [|c r]; [destruct Hr|]. cbn in Hr. subst c. apply rej_tag. reflexivity.
+    + intros rest Hr. destruct rest as [|c r]; [destruct Hr|]. cbn in Hr. subst c. reflexivity.
+    + intros; exact I.
+  - exists (VBytes s :: vs). unfold SPb in *.
+    eapply (oksep_cons _ _ _ _ _ _ _ _ _ _ _ _ any (stops_at cls_core_x_is_astring_char)).
+    + apply ok_tag.
+    + discriminate.
+    + apply ok_astring, Hs.
+    + exact IH.
+    + intros rest _. reflexivity.
+    + intros; exact I.
+Qed.
+
+Lemma ok_header_list hl d : enc_header_names hl ->
+  exists vs, OK (SepList0 (Leaf (LTag (bs " "))) (Ref f_core_x_astring DSame)) d hl (VList vs) closes.
+Proof.
+  intros [s w Hs | s w ws Hs Hl].
+  - exists [VBytes s]. rewrite <- (app_nil_r w). eapply (ok_seplist0 _ _ _ _ _ _ _ _ _ _ (stops_at cls_core_x_is_astring_char)).
+    + apply ok_astring, Hs.
+    + apply oksep_nil. intros rest Hr. destruct rest as [|c r]; [destruct Hr|]. cbn in Hr. subst c. apply rej_tag. reflexivity.
+    + intros rest Hr. destruct rest as [|c r]; [destruct Hr|]. cbn in Hr. subst c. reflexivity.
+  - destruct (oksep_header_names ws d Hl) as [vs Hvs]. exists (VBytes s :: vs).
+    eapply (ok_seplist0 _ _ _ _ _ _ _ _ _ _ (stops_at cls_core_x_is_astring_char)).
+    + apply ok_astring, Hs.
+    + exact Hvs.
+    + intros rest _. reflexivity.
+Qed.
+
+Lemma ok_msgtext m w d : enc_msgtext m w -> OK (Ref f_body_x_section_msgtext DSame) d w m closes93.
+Proof.
+  intro H. apply (okref _ _ _ _ _ _ _ env_section_msgtext). unfold def_body_x_section_msgtext.
+  destruct H as [k Hk | k Hk | k n hl Hk Hn Hl]; unfold kw in Hk.
+  - (* HEADER: the longer keyword is refused at the closing bracket *)
+    apply ok_alt_skip.
+    { intros rest Hr. destruct rest as [|c r]; [destruct Hr|]. cbn in Hr. subst c.
+      apply (rej_kw_then _ (bs "HEADER") _ 93 _ _ Hk). vm_compute. reflexivity. }
+    apply ok_alt_here. apply (Ok_follow _ _ _ _ _ _ _ any); [|intros; exact I].
+    eapply ok_map; [apply ok_tag_nc, Hk | reflexivity].
+  - (* TEXT *)
+    apply ok_alt_skip. { intros rest _. apply (rej_kw _ (bs "TEXT") _ _ _ Hk). vm_compute. reflexivity. }
+    apply ok_alt_skip. { intros rest _. apply (rej_kw _ (bs "TEXT") _ _ _ Hk). vm_compute. reflexivity. }
+    apply ok_alt_here. apply (Ok_follow _ _ _ _ _ _ _ any); [|intros; exact I].
+    eapply ok_map; [apply ok_tag_nc, Hk | reflexivity].
+  - (* HEADER.FIELDS[.NOT] (names) *)
+    apply ok_alt_here. apply (Ok_follow _ _ _ _ _ _ _ any); [|intros; exact I].
+    destruct (ok_header_list hl d Hl) as [vs Hvs].
+    assert (Hlist : OK (Map (mk_action (PTuple [PWild; PVar "p1"; PWild]) (AVar "p1"))
+                        (Seq [(Leaf (LTag (bs "("))); (SepList0 (Leaf (LTag (bs " "))) (Ref f_core_x_astring DSame)); (Leaf (LTag (bs ")")))]))
+                       d ([40] ++ hl ++ [41]) (VList vs) any).
+    { eapply ok_map.
+      { apply ok_seq. regroup ([40] ++ (hl ++ ([41] ++ []))).
+        eapply (okseq_cons _ _ _ _ _ _ _ _ _ _ any any); [apply ok_tag | | intros; exact I].
+        eapply (okseq_cons _ _ _ _ _ _ _ _ _ _ closes any); [exact Hvs | | intros rest _; reflexivity].
+        eapply (okseq_cons _ _ _ _ _ _ _ _ _ _ any any); [apply ok_tag | apply (okseq_nil _ _ _ _ any) | intros; exact I]. }
+      reflexivity. }
+    destruct Hn as [-> | Hn].
+    + eapply ok_map.
+      { apply ok_seq. unfold SPb. regroup (k ++ ([] ++ ([32] ++ (([40] ++ hl ++ [41]) ++ [])))).
+        eapply (okseq_cons _ _ _ _ _ _ _ _ _ _ any any); [apply ok_tag_nc, Hk | | intros; exact I].
+        eapply (okseq_cons _ _ _ _ _ _ _ _ _ _ (fun rest => match rest with c :: _ => c = 32 | [] => False end) any).
+        - apply ok_opt_none. intros rest Hr. destruct rest as [|c r]; [destruct Hr|]. subst c. apply rej_tag_nc. reflexivity.
+        - eapply (okseq_cons _ _ _ _ _ _ _ _ _ _ any any); [apply ok_tag | | intros; exact I].
+          eapply (okseq_cons _ _ _ _ _ _ _ _ _ _ any any); [exact Hlist | apply (okseq_nil _ _ _ _ any) | intros; exact I].
+        - intros rest _. reflexivity. }
+      reflexivity.
+    + unfold kw in Hn. eapply ok_map.
+      { apply ok_seq. unfold SPb. regroup (k ++ (n ++ ([32] ++ (([40] ++ hl ++ [41]) ++ [])))).
+        eapply (okseq_cons _ _ _ _ _ _ _ _ _ _ any any); [apply ok_tag_nc, Hk | | intros; exact I].
+        eapply (okseq_cons _ _ _ _ _ _ _ _ _ _ any any); [apply ok_opt_some, ok_tag_nc, Hn | | intros; exact I].
+        eapply (okseq_cons _ _ _ _ _ _ _ _ _ _ any any); [apply ok_tag | | intros; exact I].
+        eapply (okseq_cons _ _ _ _ _ _ _ _ _ _ any any); [exact Hlist | apply (okseq_nil _ _ _ _ any) | intros; exact I]. }
+      reflexivity.
+Qed.
+
+Lemma ok_section_text t w d : enc_section_text t w -> OK (Ref f_body_x_section_text DSame) d w t closes93.
+Proof.
+  intro H. apply (okref _ _ _ _ _ _ _ env_section_text). unfold def_body_x_section_text.
+  destruct H as [m w0 Hm | k Hk].
+  - apply ok_alt_here. apply ok_msgtext, Hm.
+  - unfold kw in Hk. apply ok_alt_skip. { intros rest _. apply (rej_kw _ (bs "MIME") _ _ _ Hk). vm_compute. reflexivity. }
+    apply ok_alt_here. apply (Ok_follow _ _ _ _ _ _ _ any); [|intros; exact I].
+    eapply ok_map; [apply ok_tag_nc, Hk | reflexivity].
+Qed.
+
+Lemma kw_head_letter K0 K k : same_nocase (K0 :: K) k = true -> (65 <=? K0) && (K0 <=? 90) = true ->
+  exists c r, k = c :: r /\ nom_is_digit c = false.
+Proof.
+  intros H HK. destruct k as [|c r]; [discriminate|]. exists c, r. split; [reflexivity|].
+  cbn [same_nocase] in H. apply andb_true_iff in H. destruct H as [H _].
+  apply andb_true_iff in HK. destruct HK as [A B]. apply N.leb_le in A, B.
+  pose proof (lower_variants K0 c H) as Hin. unfold variants in Hin. cbv zeta in Hin.
+  assert (Hl : lower K0 = K0 + 32) by (unfold lower, is_upper; replace ((65 <=? K0) && (K0 <=? 90)) with true by (symmetry; apply andb_true_iff; split; apply N.leb_le; lia); reflexivity).
+  rewrite Hl in Hin. unfold nom_is_digit.
+  destruct ((97 <=? K0 + 32) && (K0 + 32 <=? 122)); cbn [In] in Hin.
+  - destruct Hin as [<- | [<- | []]]; apply andb_false_iff; right; apply N.leb_gt; lia.
+  - destruct Hin as [<- | []]; apply andb_false_iff; right; apply N.leb_gt; lia.
+Qed.
+
+Lemma enc_msgtext_head m w : enc_msgtext m w -> exists c r, w = c :: r /\ nom_is_digit c = false.
+Proof.
+  intros [k Hk | k Hk | k n hl Hk _ _]; unfold kw in Hk.
+  - apply (kw_head_letter 72 (bs "EADER") k Hk). reflexivity.
+  - apply (kw_head_letter 84 (bs "EXT") k Hk). reflexivity.
+  - destruct (kw_head_letter 72 (bs "EADER.FIELDS") k Hk eq_refl) as (c & r & -> & Hc). eexists _, _. split; [reflexivity | exact Hc].
+Qed.
+
+Lemma enc_section_text_head t w : enc_section_text t w -> exists c r, w = c :: r /\ nom_is_digit c = false.
+Proof.
+  intros [m w0 Hm | k Hk]; [exact (enc_msgtext_head m w0 Hm)|]. unfold kw in Hk. apply (kw_head_letter 77 (bs "IME") k Hk). reflexivity.
+Qed.
+
+Definition part_follow (rest : list byte) : Prop :=
+  match rest with
+  | c :: r => c = 93 \/ (c = 46 /\ match r with c2 :: _ => nom_is_digit c2 = false | [] => False end)
+  | [] => False
+  end.
+
+Lemma rej_part_item rest d : part_follow rest -> REJ part_item d rest.
+Proof.
+  intro H. unfold part_item. apply rej_map. destruct rest as [|c r]; [destruct H|]. destruct H as [-> | [-> H]].
+  - apply rej_seq_head, rej_tag. reflexivity.
+  - destruct r as [|c2 r2]; [destruct H|]. change (46 :: c2 :: r2) with ([46] ++ (c2 :: r2)).
+    eapply (rej_seq_after _ _ _ _ _ _ _ _ any); [apply ok_tag | exact I |]. apply rejseq_head. apply rej_number_nondigit, H.
+Qed.
+
+Lemma part_follow_nodigit rest : part_follow rest -> nodigit rest.
+Proof. destruct rest as [|c r]; [intros []|]. intros [-> | [-> _]]; reflexivity. Qed.
+
+Lemma okmany_parts l ws d : enc_part_more l ws -> OkMany native_call env rk part_item d ws l part_follow.
+Proof.
+  intro H. induction H as [| n w l ws Hn Hl IH].
+  - apply okmany_nil. intros rest Hr. apply rej_part_item, Hr.
+  - rewrite app_assoc. eapply (okmany_cons _ _ _ _ _ _ _ _ _ nodigit).
+    + unfold part_item. eapply ok_map.
+      { apply ok_seq. regroup ([46] ++ (w ++ [])).
+        eapply (okseq_cons _ _ _ _ _ _ _ _ _ _ any nodigit); [apply ok_tag | | intros; exact I].
+        eapply (okseq_cons _ _ _ _ _ _ _ _ _ _ nodigit nodigit); [apply ok_number, Hn | apply (okseq_nil _ _ _ _ nodigit) | intros r Hr; exact Hr]. }
+      reflexivity.
+    + discriminate.
+    + exact IH.
+    + intros rest Hr. destruct Hl; cbn [app]; [apply part_follow_nodigit, Hr | reflexivity].
+Qed.
+
+Lemma ok_section_part n w l ws d : enc_number 32 n w -> enc_part_more l ws ->
+  OK (Ref f_body_x_section_part DSame) d (w ++ ws) (VList (VNum n :: l)) part_follow.
+Proof.
+  intros Hn Hl. apply (okref _ _ _ _ _ _ _ env_section_part). unfold def_section_part.
+  eapply ok_map.
+  { apply ok_seq. regroup (w ++ (ws ++ [])).
+    eapply (okseq_cons _ _ _ _ _ _ _ _ _ _ nodigit part_follow); [apply ok_number, Hn | |].
+    - eapply (okseq_cons _ _ _ _ _ _ _ _ _ _ part_follow part_follow); [apply ok_many0, okmany_parts, Hl | apply (okseq_nil _ _ _ _ part_follow) | intros r Hr; exact Hr].
+    - intros rest Hr. rewrite app_nil_r. destruct Hl; cbn [app]; [apply part_follow_nodigit, Hr | reflexivity]. }
+  reflexivity.
+Qed.
+
+Definition dot_text : G := Map proj12 (Seq [(Leaf (LTag (bs "."))); (Ref f_body_x_section_text DSame)]).
+
+Lemma ok_section_spec sp w d : enc_section_spec sp w -> OK (Ref f_body_x_section_spec DSame) d w sp closes93.
+Proof.
+  intro H. apply (okref _ _ _ _ _ _ _ env_section_spec). unfold def_body_x_section_spec. fold proj12. fold dot_text.
+  destruct H as [m w0 Hm | n w0 l ws Hn Hl | n w0 l ws t wt Hn Hl Ht].
+  - apply ok_alt_here. eapply ok_map; [apply ok_msgtext, Hm | reflexivity].
+  - apply ok_alt_skip.
+    { intros rest _. destruct (enc_number_head _ _ _ Hn) as (c & r & -> & Hc). cbn [app].
+      match goal with |- Rej _ _ _ ?g _ _ => apply (rej_on_digit g); [vm_compute; reflexivity | exact Hc] end. }
+    apply ok_alt_here. eapply ok_map.
+    { apply ok_seq. regroup ((w0 ++ ws) ++ ([] ++ [])).
+      eapply (okseq_cons _ _ _ _ _ _ _ _ _ _ part_follow closes93); [apply ok_section_part; eassumption | |].
+      - eapply (okseq_cons _ _ _ _ _ _ _ _ _ _ closes93 closes93); [| apply (okseq_nil _ _ _ _ closes93) | intros r Hr; exact Hr].
+        apply ok_opt_none. intros rest Hr. destruct rest as [|c r]; [destruct Hr|]. cbn in Hr. subst c.
+        unfold dot_text. apply rej_map, rej_seq_head, rej_tag. reflexivity.
+      - intros rest Hr. cbn [app]. destruct rest as [|c r]; [destruct Hr|]. cbn in Hr. subst c. left. reflexivity. }
+    reflexivity.
+  - apply ok_alt_skip.
+    { intros rest _. destruct (enc_number_head _ _ _ Hn) as (c & r & -> & Hc). cbn [app].
+      match goal with |- Rej _ _ _ ?g _ _ => apply (rej_on_digit g); [vm_compute; reflexivity | exact Hc] end. }
+    apply ok_alt_here. eapply ok_map.
+    { apply ok_seq. regroup ((w0 ++ ws) ++ (([46] ++ wt) ++ [])).
+      eapply (okseq_cons _ _ _ _ _ _ _ _ _ _ part_follow closes93); [apply ok_section_part; eassumption | |].
+      - eapply (okseq_cons _ _ _ _ _ _ _ _ _ _ closes93 closes93); [| apply (okseq_nil _ _ _ _ closes93) | intros r Hr; exact Hr].
+        apply ok_opt_some. unfold dot_text. eapply ok_map.
+        { apply ok_seq. regroup ([46] ++ (wt ++ [])).
+          eapply (okseq_cons _ _ _ _ _ _ _ _ _ _ any closes93); [apply ok_tag | | intros; exact I].
+          eapply (okseq_cons _ _ _ _ _ _ _ _ _ _ closes93 closes93); [apply ok_section_text, Ht | apply (okseq_nil _ _ _ _ closes93) | intros r Hr; exact Hr]. }
+        reflexivity.
+      - intros rest _. destruct (enc_section_text_head t wt Ht) as (c & r & -> & Hc). cbn [app]. right. split; [reflexivity | exact Hc]. }
+    reflexivity.
+Qed.
+
+Lemma ok_section sec w d : enc_section sec w -> OK (Ref f_body_x_section DSame) d w sec any.
+Proof.
+  intro H. apply (okref _ _ _ _ _ _ _ env_section). unfold def_body_x_section.
+  destruct H as [| sp w0 Hsp].
+  - eapply ok_map.
+    { apply ok_seq. regroup ([91] ++ ([] ++ ([93] ++ []))).
+      eapply (okseq_cons _ _ _ _ _ _ _ _ _ _ any any); [apply ok_tag | | intros; exact I].
+      eapply (okseq_cons _ _ _ _ _ _ _ _ _ _ closes93 any).
+      - apply ok_opt_none. intros rest Hr. destruct rest as [|c r]; [destruct Hr|]. cbn in Hr. subst c.
+        apply (fails_on_byte native_call env rk rank_ok_all 8). vm_compute. reflexivity.
+      - eapply (okseq_cons _ _ _ _ _ _ _ _ _ _ any any); [apply ok_tag | apply (okseq_nil _ _ _ _ any) | intros; exact I].
+      - intros rest _. reflexivity. }
+    reflexivity.
+  - eapply ok_map.
+    { apply ok_seq. regroup ([91] ++ (w0 ++ ([93] ++ []))).
+      eapply (okseq_cons _ _ _ _ _ _ _ _ _ _ any any); [apply ok_tag | | intros; exact I].
+      eapply (okseq_cons _ _ _ _ _ _ _ _ _ _ closes93 any); [apply ok_opt_some, ok_section_spec, Hsp | | intros rest _; reflexivity].
+      eapply (okseq_cons _ _ _ _ _ _ _ _ _ _ any any); [apply ok_tag | apply (okseq_nil _ _ _ _ any) | intros; exact I]. }
+    reflexivity.
+Qed.
+
+Definition origin_g : G := Opt (Map (mk_action (PTuple [PWild; PVar "p1"; PWild]) (AVar "p1")) (Seq [(Leaf (LTag (bs "<"))); (Ref f_core_x_number DSame); (Leaf (LTag (bs ">")))])).
+
+Lemma ok_origin idx w d : enc_origin idx w -> OK origin_g d w idx (fun rest => match rest with c :: _ => c = 32 | [] => False end).
+Proof.
+  intros [| n w0 Hn]; unfold origin_g.
+  - apply ok_opt_none. intros rest Hr. destruct rest as [|c r]; [destruct Hr|]. subst c. apply rej_map, rej_seq_head, rej_tag. reflexivity.
+  - apply (Ok_follow _ _ _ _ _ _ _ any); [|intros; exact I]. apply ok_opt_some. eapply ok_map.
+    { apply ok_seq. regroup ([60] ++ (w0 ++ ([62] ++ []))).
+      eapply (okseq_cons _ _ _ _ _ _ _ _ _ _ any any); [apply ok_tag | | intros; exact I].
+      eapply (okseq_cons _ _ _ _ _ _ _ _ _ _ nodigit any); [apply ok_number, Hn | | intros rest _; reflexivity].
+      eapply (okseq_cons _ _ _ _ _ _ _ _ _ _ any any); [apply ok_tag | apply (okseq_nil _ _ _ _ any) | intros; exact I]. }
+    reflexivity.
+Qed.
+
+Lemma ok_body_section k sec wsec idx widx v w d : kw "BODY" k -> enc_section sec wsec -> enc_origin idx widx -> enc_nstring v w ->
+  OK (Ref f_body_x_msg_att_body_section DSame) d (k ++ wsec ++ widx ++ SPb ++ w)
+     (VRec "AttributeValue::BodySection" [("section"%string, sec); ("index"%string, idx); ("data"%string, v)]) any.
+Proof.
+  intros Hk Hsec Hidx Hv. unfold kw in Hk. apply (okref _ _ _ _ _ _ _ env_att_body_section). unfold def_body_x_msg_att_body_section. fold origin_g.
+  eapply ok_map.
+  { apply ok_seq. unfold SPb. regroup (k ++ (wsec ++ (widx ++ ([32] ++ (w ++ []))))).
+    eapply (okseq_cons _ _ _ _ _ _ _ _ _ _ any any); [apply ok_tag_nc, Hk | | intros; exact I].
+    eapply (okseq_cons _ _ _ _ _ _ _ _ _ _ any any); [apply ok_section, Hsec | | intros; exact I].
+    eapply (okseq_cons _ _ _ _ _ _ _ _ _ _ (fun rest => match rest with c :: _ => c = 32 | [] => False end) any); [apply ok_origin, Hidx | | intros rest _; reflexivity].
+    eapply (okseq_cons _ _ _ _ _ _ _ _ _ _ any any); [apply ok_tag | | intros; exact I].
+    eapply (okseq_cons _ _ _ _ _ _ _ _ _ _ any any); [apply ok_nstring, Hv | apply (okseq_nil _ _ _ _ any) | intros; exact I]. }
+  reflexivity.
+Qed.
+
+(* ---------------------------------------------------------------- X-GM-LABELS *)
+Lemma env_att_labels : env f_gmail_x_msg_att_gmail_labels = Some def_gmail_x_msg_att_gmail_labels. Proof. reflexivity. Qed.
+Lemma env_label_list : env f_gmail_x_gmail_label_list = Some def_gmail_x_gmail_label_list. Proof. reflexivity. Qed.
+Lemma env_quoted_utf8_l : env f_core_x_quoted_utf8 = Some def_core_x_quoted_utf8. Proof. reflexivity. Qed.
+
+Lemma ok_flag_core f w d : enc_flag f w -> OK (Ref f_rfc3501_x_flag DSame) d w (VBytes f) flag_follow.
+Proof.
+  intro H. apply (okref _ _ _ _ _ _ _ env_flag). unfold def_rfc3501_x_flag.
+  destruct H as [a Hne Ha | a Hne Ha].
+  - destruct a as [|c a]; [contradiction|]. cbn [forallb] in Ha. apply andb_true_iff in Ha. destruct Ha as [Hc Ha].
+    destruct (atom_char_facts c Hc) as (_ & Hcs & _ & H92 & _).
+    apply ok_alt_skip.
+    { intros rest _. cbn [app]. apply (rejref _ _ _ _ _ env_flag_ext). unfold def_rfc3501_x_flag_extension.
+      apply rej_mapres, rej_recognize, rej_seq_head, rej_tag. rewrite N.eqb_sym. exact H92. }
+    apply ok_alt_here. apply (Ok_follow _ _ _ _ _ _ _ (stops_at cls_core_x_is_astring_char)); [|intros r Hr; exact (proj2 (flag_follow_stops r Hr))].
+    eapply ok_mapres.
+    { apply ok_take_while1; [|discriminate]. cbn [forallb]. rewrite Hcs.
+      apply (forallb_impl rfc_ATOM_CHAR); [intros x Hx; exact (proj1 (proj2 (atom_char_facts x Hx))) | exact Ha]. }
+    cbn. unfold native_call. cbn. rewrite ascii_utf8; [reflexivity|].
+    cbn [forallb]. rewrite (proj1 (proj2 (proj2 (atom_char_facts c Hc)))).
+    apply (forallb_impl rfc_ATOM_CHAR); [intros x Hx; exact (proj1 (proj2 (proj2 (atom_char_facts x Hx)))) | exact Ha].
+  - destruct a as [|c a]; [contradiction|]. pose proof Ha as Ha0.
+    apply ok_alt_here. apply (okref _ _ _ _ _ _ _ env_flag_ext). unfold def_rfc3501_x_flag_extension.
+    apply (Ok_follow _ _ _ _ _ _ _ (stops_at cls_core_x_is_atom_char)); [|intros r Hr; exact (proj1 (flag_follow_stops r Hr))].
+    eapply ok_mapres.
+    { eapply ok_recognize. apply ok_seq. regroup ([92] ++ ((c :: a) ++ [])).
+      eapply (okseq_cons _ _ _ _ _ _ _ _ _ _ any (stops_at cls_core_x_is_atom_char)); [apply ok_tag | | intros; exact I].
+      eapply (okseq_cons _ _ _ _ _ _ _ _ _ _ (stops_at cls_core_x_is_atom_char) (stops_at cls_core_x_is_atom_char)); [| apply (okseq_nil _ _ _ _ (stops_at cls_core_x_is_atom_char)) | intros r Hr; exact Hr].
+      apply ok_take_while. apply (forallb_impl rfc_ATOM_CHAR); [intros x Hx; exact (proj1 (atom_char_facts x Hx)) | exact Ha0]. }
+    cbn. unfold native_call. cbn. rewrite ascii_utf8; [reflexivity|].
+    change (forallb (fun b => b <=? 127) (92 :: c :: a) = true). cbn [forallb]. apply andb_true_iff. split; [reflexivity|].
+    apply (forallb_impl rfc_ATOM_CHAR (fun b => b <=? 127) (c :: a)); [intros x Hx; exact (proj1 (proj2 (proj2 (atom_char_facts x Hx)))) | exact Ha0].
+Qed.
+
+Definition label_item : G := Map (mk_action (PVar "x") (AVar "x")) (Alt [(Ref f_rfc3501_x_flag DSame); (Ref f_core_x_quoted_utf8 DSame)]).
+
+Lemma ok_label f w d : enc_label f w -> OK label_item d w (VBytes f) flag_follow.
+Proof.
+  intro H. unfold label_item. eapply ok_map; [|reflexivity]. destruct H as [f w Hf | s w Hq Hu].
+  - apply ok_alt_here. apply ok_flag_core, Hf.
+  - apply (Ok_follow _ _ _ _ _ _ _ any); [|intros; exact I]. apply ok_alt_skip.
+    { intros rest _. destruct Hq as [s' Hs]. cbn [app]. apply (fails_on_byte native_call env rk rank_ok_all 8). vm_compute. reflexivity. }
+    apply ok_alt_here. apply (okref _ _ _ _ _ _ _ env_quoted_utf8_l). unfold def_core_x_quoted_utf8.
+    eapply ok_mapres. { apply ok_quoted, Hq. } cbn. unfold native_call. cbn. rewrite Hu. reflexivity.
+Qed.
+
+Lemma oksep_labels l ws d : enc_labels_more l ws ->
+  OkSep native_call env rk (Leaf (LTag (bs " "))) label_item d ws l closes.
+Proof.
+  intro H. induction H as [| f w l ws Hf Hl IH].
+  - apply oksep_nil. intros rest Hr. destruct rest as [|c r]; [destruct Hr|]. cbn in Hr. subst c. apply rej_tag. reflexivity.
+  - unfold SPb. eapply (oksep_cons _ _ _ _ _ _ _ _ _ _ _ _ any flag_follow).
+    + apply ok_tag.
+    + discriminate.
+    + apply ok_label, Hf.
+    + exact IH.
+    + intros rest Hr. destruct Hl; cbn [app].
+      * destruct rest as [|c r]; [destruct Hr|]. cbn in Hr. subst c. right. reflexivity.
+      * left. reflexivity.
+    + intros; exact I.
+Qed.
+
+Lemma ok_label_list k v w d : same_nocase (bs "X-GM-LABELS ") k = true -> enc_label_list v w ->
+  OK (Ref f_gmail_x_gmail_label_list DSame) d (k ++ w) v any.
+Proof.
+  intros Hk H. apply (okref _ _ _ _ _ _ _ env_label_list). unfold def_gmail_x_gmail_label_list. fold label_item.
+  destruct H as [| f w0 l ws Hf Hl].
+  - eapply ok_map.
+    { apply ok_seq. regroup (k ++ ([40; 41] ++ [])).
+      eapply (okseq_cons _ _ _ _ _ _ _ _ _ _ any any); [apply ok_tag_nc, Hk | | intros; exact I].
+      eapply (okseq_cons _ _ _ _ _ _ _ _ _ _ any any); [| apply (okseq_nil _ _ _ _ any) | intros; exact I].
+      eapply ok_map.
+      { apply ok_seq. regroup ([40] ++ ([] ++ ([41] ++ []))).
+        eapply (okseq_cons _ _ _ _ _ _ _ _ _ _ any any); [apply ok_tag | | intros; exact I].
+        eapply (okseq_cons _ _ _ _ _ _ _ _ _ _ closes any).
+        - apply ok_seplist0_empty. intros rest Hr. destruct rest as [|c r]; [destruct Hr|]. cbn in Hr. subst c.
+          apply (fails_on_byte native_call env rk rank_ok_all 8). vm_compute. reflexivity.
+        - eapply (okseq_cons _ _ _ _ _ _ _ _ _ _ any any); [apply ok_tag | apply (okseq_nil _ _ _ _ any) | intros; exact I].
+        - intros rest _. reflexivity. }
+      reflexivity. }
+    reflexivity.
+  - eapply ok_map.
+    { apply ok_seq. regroup (k ++ (([40] ++ w0 ++ ws ++ [41]) ++ [])).
+      eapply (okseq_cons _ _ _ _ _ _ _ _ _ _ any any); [apply ok_tag_nc, Hk | | intros; exact I].
+      eapply (okseq_cons _ _ _ _ _ _ _ _ _ _ any any); [| apply (okseq_nil _ _ _ _ any) | intros; exact I].
+      eapply ok_map.
+      { apply ok_seq. regroup ([40] ++ ((w0 ++ ws) ++ ([41] ++ []))).
+        eapply (okseq_cons _ _ _ _ _ _ _ _ _ _ any any); [apply ok_tag | | intros; exact I].
+        eapply (okseq_cons _ _ _ _ _ _ _ _ _ _ closes any).
+        - eapply (ok_seplist0 _ _ _ _ _ _ _ _ _ _ flag_follow).
+          + apply ok_label, Hf.
+          + apply oksep_labels, Hl.
+          + intros rest Hr. destruct Hl; cbn [app].
+            * destruct rest as [|c r]; [destruct Hr|]. cbn in Hr. subst c. right. reflexivity.
+            * left. reflexivity.
+        - eapply (okseq_cons _ _ _ _ _ _ _ _ _ _ any any); [apply ok_tag | apply (okseq_nil _ _ _ _ any) | intros; exact I].
+        - intros rest _. reflexivity. }
+      reflexivity. }
+    reflexivity.
+Qed.
+
 Ltac skip K Hk := apply (skip_kw _ _ (bs K) _ _ _ _ _ Hk); [vm_compute; reflexivity|].
 
 Lemma ok_msg_att v w d : enc_msg_att v w -> OK (Ref f_rfc3501_x_msg_att DSame) d w v nodigit.
 Proof.
   intro H. apply (okref _ _ _ _ _ _ _ env_msg_att). unfold def_rfc3501_x_msg_att.
   destruct H as [k e w Hk He | k n w Hk Hn | k n w Hk Hn | k v w Hk Hv | k v w Hk Hv | k v w sp Hk Hv Hsp | k n w Hk Hn | k n w Hk Hn
-                 | k v w Hk Hv | k s w Hk Hs Hu];
+                 | k v w Hk Hv | k s w Hk Hs Hu | k v w Hk Hv | k sec wsec idx widx v w Hk Hsec Hidx Hv];
     unfold kw in Hk.
   - (* ENVELOPE *)
     do 3 skip "ENVELOPE "%string Hk. apply ok_alt_here. apply (Ok_follow _ _ _ _ _ _ _ any); [|intros; exact I].
@@ -587,6 +992,13 @@ Proof.
     do 4 skip "INTERNALDATE "%string Hk. apply ok_alt_here. apply (Ok_follow _ _ _ _ _ _ _ any); [|intros; exact I].
     apply (okref _ _ _ _ _ _ _ env_att_date). unfold def_rfc3501_x_msg_att_internal_date.
     eapply ok_map. { apply (ok_kw2 _ _ _ _ _ _ any Hk). apply (ok_string_utf8 s w _ Hs Hu). } reflexivity.
+  - (* X-GM-LABELS *)
+    do 12 skip "X-GM-LABELS "%string Hk. apply ok_alt_here. apply (Ok_follow _ _ _ _ _ _ _ any); [|intros; exact I].
+    apply (okref _ _ _ _ _ _ _ env_att_labels). unfold def_gmail_x_msg_att_gmail_labels.
+    eapply ok_map; [apply ok_label_list; eassumption | reflexivity].
+  - (* BODY[section]<origin> nstring *)
+    apply ok_alt_here. apply (Ok_follow _ _ _ _ _ _ _ any); [|intros; exact I].
+    apply ok_body_section; assumption.
 Qed.
 
 (* ---------------------------------------------------------------- the FETCH response, up to the entry point *)
@@ -659,21 +1071,7 @@ Proof.
     rewrite (nocase_mismatch_scan eq_nocase1 s (32 :: K) k rest (or_intror eq_refl) Hm Hk). reflexivity.
 Qed.
 
-Definition digits10 : list byte := [48; 49; 50; 51; 52; 53; 54; 55; 56; 57].
-Lemma rej_on_digit g : forallb (fun c => fails_on env 8 g [c]) digits10 = true ->
-  forall c i d, nom_is_digit c = true -> REJ g d (c :: i).
-Proof.
-  intros H c i d Hc. rewrite forallb_forall in H. apply (fails_on_byte native_call env rk rank_ok_all 8). apply H.
-  unfold nom_is_digit in Hc. apply andb_true_iff in Hc. destruct Hc as [A B]. apply N.leb_le in A, B.
-  assert (Hc : c = 48 \/ c = 49 \/ c = 50 \/ c = 51 \/ c = 52 \/ c = 53 \/ c = 54 \/ c = 55 \/ c = 56 \/ c = 57) by lia.
-  unfold digits10. cbn [In]. intuition.
-Qed.
 
-Lemma enc_number_head bits n w : enc_number bits n w -> exists c r, w = c :: r /\ nom_is_digit c = true.
-Proof.
-  intros [ds Hne Hd _]. destruct ds as [|c r]; [contradiction|]. exists c, r. split; [reflexivity|].
-  cbn [forallb] in Hd. apply andb_true_iff in Hd. exact (proj1 Hd).
-Qed.
 
 Lemma env_mailbox_data : env f_rfc3501_x_mailbox_data = Some def_rfc3501_x_mailbox_data. Proof. reflexivity. Qed.
 Lemma env_md_exists : env f_rfc3501_x_mailbox_data_exists = Some def_rfc3501_x_mailbox_data_exists. Proof. reflexivity. Qed.
@@ -1511,11 +1909,6 @@ Definition ids_end (rest : list byte) : Prop :=
   | _ => False
   end.
 
-Lemma rej_number_nondigit c i d : nom_is_digit c = false -> REJ (Ref f_core_x_number DSame) d (c :: i).
-Proof.
-  intro H. apply (rejref _ _ _ _ _ env_number). intros b f Hf Hb. destruct f as [|f]; [cbn [need] in Hf; lia|].
-  rewrite run_S. cbn [step leaf_run]. unfold number_p. cbn [span]. rewrite H. reflexivity.
-Qed.
 
 Lemma rej_id_item rest d : ids_end rest -> REJ id_item d rest.
 Proof.
